@@ -58,6 +58,12 @@ type ipKey struct {
 	ix     string
 }
 
+// ipMaxStates bounds one walk (the largest walk on the reference tree needs well under a tenth of it); a walk that
+// exceeds it panics, which the driver records as a fatal result of the rule: the check fails closed instead of running
+// for hours on a tree whose path facts multiply.
+var ipMaxStates = 1000000
+var ipMaxSeen int
+
 // IPWalk explores the interprocedural graph obtained by cloning module callees by call string.
 type IPWalk struct {
 	P        *Program
@@ -265,7 +271,17 @@ func (w *IPWalk) Run(entry *Ctx, starts []Node) {
 			}
 		}
 	}
+	popped := 0
+	defer func() {
+		if popped > ipMaxSeen {
+			ipMaxSeen = popped
+		}
+	}()
 	for len(work) > 0 {
+		popped++
+		if popped > ipMaxStates {
+			panic(fmt.Sprintf("analysis budget exceeded: more than %d path states in one interprocedural walk from %s (the check fails closed)", ipMaxStates, funcKey(entry.Fn)))
+		}
 		s := work[len(work)-1]
 		work = work[:len(work)-1]
 		in := s.b.Instrs[s.i]
